@@ -1,6 +1,7 @@
 import TantivyModel.Driver.Proto
 import TantivyModel.Model.Columnar.Column
 import TantivyModel.Model.Columnar.Writer
+import TantivyModel.Model.Columnar.CompactSpace
 /-!
 Line protocol of the C08 model (fast fields / columnar).
 
@@ -11,6 +12,7 @@ Line protocol of the C08 model (fast fields / columnar).
   transform <min> <gcd> <lo> <hi>    -> `a b` | none (transform_range_before_linear_transformation as the source has it)
   encode <codec> <vals>              -> hex of the column values (codec byte included) | none
   decode <hex> <idxs|all>            -> `codec min max gcd rows;v,v,..` | corrupt
+  decode128 <hex> <idxs|all>         -> `rows min max bits ranges;v,v,..` of a compact-space u128 column | corrupt
   optenc <numRows> <rows>            -> hex of serialize_optional_index
   optidx <hex> <docs> <ranks>        -> `numDocs numNonNull;rank..;rankIfExists..;select..` (x = none)
   i64_to_u64 / u64_to_i64 / f64_to_u64 / u64_to_f64 <bits>
@@ -112,6 +114,20 @@ def handle : List String → String
         | some is =>
           if is.all (fun i => decide (i < r.stats.numRows)) then
             s!"{r.codec} {r.stats.min} {r.stats.max} {r.stats.gcd} {r.stats.numRows};{showNatList (is.map r.get)}"
+          else "bad-op"
+        | none => "bad-op"
+      | none => "corrupt"
+    | none => "bad-op"
+  | ["decode128", h, idxs] =>
+    match bytesArg h with
+    | some bytes =>
+      match openU128Column bytes with
+      | some c =>
+        let idxs := if idxs == "all" then some (List.range c.numVals) else natList idxs
+        match idxs with
+        | some is =>
+          if is.all (fun i => decide (i < c.numVals)) then
+            s!"{c.numVals} {c.minValue} {c.maxValue} {c.numBits} {c.ranges.length};{showNatList (is.map c.get)}"
           else "bad-op"
         | none => "bad-op"
       | none => "corrupt"
